@@ -2,6 +2,7 @@ package main
 
 import (
 	"fmt"
+	"sort"
 
 	"verifharness/lib/cq"
 	"verifharness/lib/hx"
@@ -30,6 +31,7 @@ type gen struct {
 	a          *hx.Args
 	same22     bool      // the manager is created with 2 and 2 channels: a handler whose downstream channel is taken waits
 	waiter     *waitInfo // the handler that waits for a downstream channel (at most one at a time)
+	handlerSeek map[string]uint64 // seek time of the handler of a source channel (that of the collection that created it)
 	wakes      []string  // set by newColl: the virtual channels that start reading because this collection forwarded a channel
 	handlerTgt map[string]string
 	usedTgt    map[string]bool
@@ -123,7 +125,7 @@ func sortInts(x []int) {
 
 func generate(a *hx.Args, mode string) ([]label, int) {
 	r := a.Rng
-	g := &gen{a: a, handlerTgt: map[string]string{}, usedTgt: map[string]bool{}, added: map[string]bool{}}
+	g := &gen{a: a, handlerTgt: map[string]string{}, usedTgt: map[string]bool{}, added: map[string]bool{}, handlerSeek: map[string]uint64{}}
 	n := 1 + r.Intn(3)
 	if r.Intn(4) == 0 {
 		// two and two channels: the wait / forward path of the manager
@@ -133,9 +135,28 @@ func generate(a *hx.Args, mode string) ([]label, int) {
 	}
 	lazy := r.Intn(12) == 0 // one lazily learnt partition in this case (costs half a second)
 	for i := 0; i < n; i++ {
+		had := map[string]bool{}
+		for k := range g.handlerTgt {
+			had[k] = true
+		}
+		if g.waiter != nil {
+			had[g.waiter.s] = true
+		}
 		c := g.newColl(i, mode == "c02")
 		if c == nil {
 			continue
+		}
+		if r.Intn(3) == 0 {
+			// the task resumes from saved positions
+			c.seek = map[string]uint64{}
+			for _, p := range c.src {
+				c.seek[p[1]] = uint64(40 + r.Intn(60))
+			}
+		}
+		for _, p := range c.src {
+			if !had[p[1]] {
+				g.handlerSeek[p[1]] = c.seek[p[1]]
+			}
 		}
 		// partitions p1, p2: known downstream from the start, or created through the event
 		for k := 1; k <= 2; k++ {
@@ -163,7 +184,38 @@ func generate(a *hx.Args, mode string) ([]label, int) {
 		for k := 1; k <= 2; k++ {
 			if r.Intn(2) == 0 {
 				pn := fmt.Sprintf("p%d", k)
-				g.labels = append(g.labels, label{kind: "addpart", c: c, pid: c.id*100 + int64(k), pname: pn})
+				l := label{kind: "addpart", c: c, pid: c.id*100 + int64(k), pname: pn}
+				// the partition was dropped upstream while CDC was down: each shard handler that resumed from a position
+				// generates the drop-partition message itself (only for shards that are neither forwarded nor waiting)
+				plain := len(c.waitv) == 0 && !lazy
+				ss, ts := append([][2]string{}, c.src...), append([][2]string{}, c.tgt...)
+				sort.Slice(ss, func(a, b int) bool { return ss[a][0] < ss[b][0] })
+				sort.Slice(ts, func(a, b int) bool { return ts[a][0] < ts[b][0] })
+				for j := range ss {
+					if g.handlerTgt[ss[j][1]] != ts[j][1] {
+						plain = false
+					}
+				}
+				var gens []label
+				if k == 1 && plain && r.Intn(3) == 0 {
+					l.dropped = true
+					if _, known := c.parts[pn]; known {
+						for _, p := range c.src {
+							if z := g.handlerSeek[p[1]]; z != 0 {
+								gens = append(gens, label{kind: "feed", virtual: true, c: c, spch: p[1], svch: p[0], begin: z, end: z, nstart: 1,
+									msgs: []smsg{{kind: "droppart", id: genDropPartID(c.tid, pn), coll: c.id, part: l.pid, pname: pn, ts: z, pospch: true}}})
+							}
+						}
+					}
+					l.ngen = len(gens)
+					for _, st := range g.streams {
+						if st.c == c {
+							st.dropPart = true
+						}
+					}
+				}
+				g.labels = append(g.labels, l)
+				g.labels = append(g.labels, gens...)
 				g.added[fmt.Sprintf("%d/%s", c.id, pn)] = true
 			}
 		}
@@ -330,6 +382,28 @@ func corpus(out *cq.Out) {
 		{kind: "start", c: wc, wakes: []string{"src-dml_1_2v0"}}, feed(wb, 0, 2000, 2003, ib(2, 2002)), feed(wc, 0, 3000, 3003, ic(3, 3002)),
 		feed(wb, 0, 2003, 2004), feed(wa, 0, 104, 106, ins(4, 105)), feed(wb, 0, 2004, 2006, ib(5, 2005), ib(6, 2006))},
 		"corpus: a waiting handler is given another downstream channel (wait / forward path)")
+	// a partition of a two-shard collection was dropped upstream while CDC was down: the task resumes from saved positions, the
+	// catalog lists the partition as dropped, every shard handler generates the drop-partition message itself: one request
+	rs := &coll{id: 1, tid: 9001, name: "c1", src: [][2]string{{"src-dml_0_1v0", "src-dml_0"}, {"src-dml_1_1v1", "src-dml_1"}},
+		tgt: [][2]string{{"tgt-dml_0_9001v0", "tgt-dml_0"}, {"tgt-dml_1_9001v1", "tgt-dml_1"}}, parts: map[string]int64{"_default": 900100, "p1": 900101},
+		seek: map[string]uint64{"src-dml_0": 50, "src-dml_1": 60}}
+	gen := func(c *coll, sh int, z uint64) label {
+		return label{kind: "feed", virtual: true, c: c, spch: c.src[sh][1], svch: c.src[sh][0], begin: z, end: z, nstart: 1,
+			msgs: []smsg{{kind: "droppart", id: genDropPartID(c.tid, "p1"), coll: c.id, part: 101, pname: "p1", ts: z, pospch: true}}}
+	}
+	runCase(out, 1, []label{{kind: "start", c: rs}, feed(rs, 0, 100, 103, ins(1, 102)), {kind: "addpart", c: rs, pid: 101, pname: "p1", dropped: true, ngen: 2},
+		gen(rs, 0, 50), gen(rs, 1, 60), feed(rs, 0, 103, 106, ins(2, 105)), feed(rs, 1, 300, 303, ins(3, 302))},
+		"corpus: a partition dropped while CDC was down (generated drop-partition messages after resume)")
+	if *mode == "c01" {
+		// more downstream than source channels (2 and 4): the mapping key is the downstream channel; the second collection lives on
+		// another source channel but on the same downstream channel, so the handler of that downstream channel reads both streams;
+		// tick-only packs of the second stream must carry the second stream's label (checked on the trace, outside the model)
+		ta := &coll{id: 1, tid: 9001, name: "c1", src: [][2]string{{"src-dml_0_1v0", "src-dml_0"}}, tgt: [][2]string{{"tgt-dml_0_9001v0", "tgt-dml_0"}}, parts: map[string]int64{"_default": 900100}}
+		tb := &coll{id: 2, tid: 9002, name: "c2", src: [][2]string{{"src-dml_1_2v0", "src-dml_1"}}, tgt: [][2]string{{"tgt-dml_0_9002v0", "tgt-dml_0"}}, parts: map[string]int64{"_default": 900200}}
+		runCase(out, 1, []label{{kind: "config", ns: 2, nt: 4}, {kind: "start", c: ta}, {kind: "start", c: tb}, feed(ta, 0, 100, 104, ins(1, 102)),
+			feed(tb, 0, 2000, 2003), feed(ta, 0, 104, 106, ins(2, 105)), feed(tb, 0, 2003, 2004), feed(ta, 0, 106, 107)},
+			"corpus: more downstream than source channels, two source streams on one downstream channel (trace check only)")
+	}
 	// a two-shard collection dropped: the event only after both shards
 	d := &coll{id: 1, tid: 9001, name: "c1", src: [][2]string{{"src-dml_0_1v0", "src-dml_0"}, {"src-dml_1_1v1", "src-dml_1"}},
 		tgt: [][2]string{{"tgt-dml_0_9001v0", "tgt-dml_0"}, {"tgt-dml_1_9001v1", "tgt-dml_1"}}, parts: map[string]int64{"_default": 900100, "p1": 900101}}
